@@ -41,7 +41,8 @@ def insertAt {α} (l : List α) (k : Nat) (x : α) : List α := l.take k ++ [x] 
 /-- the `switch` at the head of `Shape.Repeat`: (size, newShape before the axis is overwritten, axis).
     `AllAxes` is `-1`. -/
 def repeatHead (s : Shape) (axis : Int) : Res (Int × Shape × Int) :=
-  if axis == -1 then pure (totalSize s, [totalSize s], (0 : Int))
+  if axis < -1 then throwErr "invalidAxis"
+  else if axis == -1 then pure (totalSize s, [totalSize s], (0 : Int))
   else if s.isEmpty then pure (1, (if axis == 1 then [1, 0] else [0]), axis)
   else if isVector s && !isRowVec s && !isColVec s && axis == 1 then pure (1, s ++ [1], axis)
   else if axis ≥ s.length then throwErr "invalidAxis"
@@ -241,11 +242,12 @@ def recycled (st : St) (dt : String) (sh : Shape) : Res (St × Dense) :=
 
 def sized (dt : String) : Bool := ["b", "i8", "u8", "i16", "u16", "i32", "u32", "f32", "i", "u", "i64", "u64", "f64", "c64"].contains dt
 
-/-- the shape computed at the head of `StackDense`: only the first operand's shape is looked at -/
-def stackNewShape (tshape : Shape) (axis : Int) (nOthers : Nat) : Res Shape :=
-  if axis ≥ (tshape.length : Int) + 1 then throwErr "dimMismatch"
-  else if axis < 0 then throwPanic "newShape[axis]: index out of range"
-  else .ok (insertAt tshape axis.toNat ((nOthers : Int) + 1))
+/-- the head of `StackDense`: the axis must lie in `[0, rank]`, every other operand must have exactly
+    the first operand's shape (`len(oshape) != len(shape) || !oshape.Eq(shape)`); then the new shape -/
+def stackNewShape (tshape : Shape) (axis : Int) (others : List Shape) : Res Shape :=
+  if axis < 0 || axis ≥ (tshape.length : Int) + 1 then throwErr "dimMismatch"
+  else if others.any (fun o => o.length != tshape.length || !shapeEq o tshape) then throwErr "shapeMismatch"
+  else .ok (insertAt tshape axis.toNat ((others.length : Int) + 1))
 
 /-- the data movement of `StackDense` after the result tensor exists: `denseSimpleStack` when no
     operand needs an iterator, `denseViewStack` otherwise. `dst` are the (zeroed) cells of the result. -/
@@ -275,7 +277,7 @@ def stackCells (st : St) (t : Dense) (axis : Int) (others : List Dense) (newStri
 
 /-- `StdEng.StackDense(t, axis, others...)` -/
 def stackDense (st : St) (t : Dense) (axis : Int) (others : List Dense) : Res (St × Dense) := do
-  let newShape ← stackNewShape t.shape axis others.length
+  let newShape ← stackNewShape t.shape axis (others.map (·.shape))
   let newStrides := Dense.defaultStrides t.ap.o.col newShape
   let (st, r0) ← recycled st t.dt newShape
   -- retVal.setAP(&ap): the order flags are the first operand's
@@ -286,20 +288,19 @@ def stackDense (st : St) (t : Dense) (axis : Int) (others : List Dense) : Res (S
   let st ← writeCells st ret.win dst
   pure (st, ret)
 
-/-- the loop bounds and block lengths `denseRepeat` derives from the two tensors:
-    (outers, stride, newStride) -/
-def repeatParams (tshape newShape : Shape) (tostrides dostrides : List Int) (axis : Int) : Res (Int × Int × Int) := do
+/-- the loop bounds and block lengths of `denseRepeat`: (outers, stride, newStride). Source and result
+    are both walked in blocks of everything behind the repeated axis, `ProdInts(newShape[axis+1:])`. -/
+def repeatParams (tshape newShape : Shape) (axis : Int) : Res (Int × Int × Int) := do
   let outers ← (if tshape.isEmpty then pure 1 else
     if axis < 0 || axis > tshape.length then throwPanic "Shape()[0:axis] out of range"
     else pure (prod (tshape.take axis.toNat)) : Res Int)
-  -- `if newShape.IsVector() || t.IsVector() { stride = 1 }`
-  let stride ← (if isVector newShape || isVector tshape then pure 1 else idx tostrides axis "t.ostrides()[axis]" : Res Int)
-  let newStride ← (if isVector newShape then pure 1 else idx dostrides axis "d.ostrides()[axis]" : Res Int)
-  pure (outers, stride, newStride)
+  let stride ← (if axis + 1 < 0 || axis + 1 > newShape.length then throwPanic "newShape[axis+1:] out of range"
+    else pure (prod (newShape.drop (axis + 1).toNat)) : Res Int)
+  pure (outers, stride, stride)
 
 /-- `StdEng.denseRepeat(t, reuse, newShape, axis, size, repeats)` (after `denseRepeatCheck`) -/
 def denseRepeat (st : St) (t d : Dense) (newShape : Shape) (axis : Int) (size : Int) (reps : List Int) : Res St := do
-  let (outers, stride, newStride) ← repeatParams t.shape newShape t.ostrides d.ostrides axis
+  let (outers, stride, newStride) ← repeatParams t.shape newShape axis
   if t.mask.isSome || d.mask.isSome then throwPanic "unmodelled: masked operand of Repeat"
   if t.dt != d.dt then throwPanic "unmodelled: Repeat into a tensor of another element type"
   let _ := size
@@ -383,10 +384,11 @@ def assignArray (st : St) (dest src : Dense) : Res St := do
     let (st, _) ← Dense.copyDense st dest src
     pure st
   else
-    let (st, _) ← Dense.copyMask st dest src
     let doffs ← iterOffsets dest.ap
     let soffs ← iterOffsets sap
-    Dense.copyIterOffsets st dest.win src.win doffs soffs
+    let st ← Dense.copyIterOffsets st dest.win src.win doffs soffs
+    let (st, _) ← Dense.copyMaskIter st dest src doffs soffs
+    pure st
 
 /-- `(*Dense).reshape(dims...)` on a view: `setShape` (default strides of the order), `sanity` passes -/
 def viewReshape (v : Dense) (dims : Shape) : Dense :=
@@ -469,9 +471,10 @@ def denseConcat (st : St) (ds : Array Dense) (ids : List Nat) (axis : Int) : Res
           let vmask := v.mask
           let v := { v with mask := none }
           let tmask := if T.isMasked then T.mask else none
-          -- mt.SetMask(nil), never undone
-          let T := if T.isMasked then { T with mask := none } else T
+          -- the operand keeps what `reshape` did to it; its mask is only removed for the copy
+          -- (`mt.SetMask(nil)` … `mt.SetMask(Tmask)`)
           let ds := ds.set! id T
+          let T := if T.isMasked then { T with mask := none } else T
           let st ← assignArray st v T
           let st ← (match tmask, vmask with
             | some tm, some vm =>
@@ -594,7 +597,11 @@ def stepM (ps : PState) (_stepIdx : Nat) (toks : List String) : PState × StepOu
     match axisTok.toInt?, operands ps opToks with
     | some axis, some ops =>
       let ids := ops.map (·.1)
-      if via == "fn" && ops.length == 1 then finishAsm ps ids (.ok (ps, ids.head?, none))
+      if via == "fn" && ops.length == 1 then
+        -- `tensor.Concat` without further operands: the operand itself, once `Shape.Concat` accepts the axis
+        finishAsm ps ids (do
+          let _ ← shapeConcat ((ops.head?.map (·.2.shape)).getD []) axis []
+          pure (ps, ids.head?, none))
       else if via == "fn" || via == "meth" then finishAsm ps ids (concatMeth ps ids axis)
       else (ps.failVar, .fields "r=skip")
     | _, _ => (ps.failVar, .fields "r=skip")
@@ -602,8 +609,7 @@ def stepM (ps : PState) (_stepIdx : Nat) (toks : List String) : PState × StepOu
     match axisTok.toInt?, operands ps opToks with
     | some axis, some ((tid, t) :: others) =>
       let ids := tid :: others.map (·.1)
-      if via == "fn" && others.isEmpty then finishAsm ps ids (.ok (ps, some tid, none))
-      else if via == "fn" || via == "meth" then
+      if via == "fn" || via == "meth" then
         finishAsm ps ids (do
           let (st, d) ← stackDense ps.st t axis (others.map (·.2))
           pure ({ ps with st := st }, none, some d))
@@ -820,43 +826,18 @@ def stepS (psBefore psAfter : PState) (ss : SState) (_stepIdx : Nat) (toks : Lis
 
 /-! ### known-defect regions -/
 
-/-- F60: `Stack` never compares the operands' shapes with the first operand's. -/
-def Excl_stackShapes (shapes : List Shape) : Bool :=
-  match shapes with
-  | [] => false
-  | s :: rest => rest.any (· != s)
-
-/-- F61: `StackDense` has no lower bound on the axis (`newShape[axis]` panics). -/
-def Excl_stackNegAxis (axis : Int) : Bool := axis < 0
-
-/-- F62: `tensor.Stack` / `tensor.Concat` return their first operand untouched when no other
-    operand is given: Stack adds no new axis, and neither checks the axis at all. -/
-def Excl_singleOperandFn (kind via : String) (nOps : Nat) (axis : Int) (rank : Nat) : Bool :=
-  via == "fn" && nOps == 1 && (kind == "stack" || axis < 0 || axis ≥ rank)
-
 /-- F63: `Shape.Concat` treats `AllAxes` (-1) as axis 0 (pinned by its tests) while `denseConcat`
     indexes `T.Shape()[axis]` with it. -/
 def Excl_concatAllAxes (axis : Int) : Bool := axis == -1
 
-/-- F64: `denseRepeat` / `fastCopyDenseRepeat` walk the raw storage window with `ostrides()[axis]`
-    (1 for vectors): a source whose storage is not its own row-major listing — non-contiguous or
+/-- F64: `denseRepeat` / `fastCopyDenseRepeat` walk the raw storage window in blocks of
+    `∏ newShape[axis+1:]` cells: a source whose storage is not its own row-major listing — non-contiguous or
     stepped views, lazily transposed tensors — is read at the wrong cells. -/
 def Excl_repeatLayout (t : Dense) : Bool :=
   t.old.isSome || (t.win.len != 1 && t.ap.strides != calcStrides t.ap.shape)
 
-/-- F65: when the *result* shape is a vector the source block length is forced to 1
-    (`if newShape.IsVector() || t.IsVector() { stride = 1 }`): repeating a matrix `(m,n)`, `n > 1`,
-    along axis 0 with counts that sum to 1 (zero counts leaving one row; a row vector repeated once)
-    gives the row-vector shape `(1,n)` and copies one element instead of one row. -/
-def Excl_repeatVectorResult (shape : Shape) (axis : Int) (reps : List Int) : Bool :=
-  match shape, shapeRepeat shape axis reps with
-  | [_, n], .ok (_, fr, _) => axis == 0 && n > 1 && sumI fr == 1
-  | _, _ => false
-
-/-- F66: `Shape.Repeat` has no lower bound on the axis (`s[axis]` panics for axis < -1). -/
-def Excl_repeatNegAxis (axis : Int) : Bool := axis < -1
-
-/-- F67: `RepeatReuse` writes the reuse tensor's raw storage with `ostrides()[axis]`: a reuse tensor
+/-- F67: `RepeatReuse` writes the reuse tensor's raw storage in blocks of `∏ newShape[axis+1:]`
+    cells: a reuse tensor
     that is a non-contiguous view or lazily transposed receives the blocks at the wrong cells (or panics). -/
 def Excl_reuseLayout (r : Dense) : Bool :=
   r.old.isSome || (r.win.len != 1 && r.ap.strides != calcStrides r.ap.shape)
@@ -874,54 +855,34 @@ def Excl_concatVecIter (ops : List Dense) (axis : Int) : Bool :=
   ops.any (fun t => t.ap.shape.length == 2 && isVector t.ap.shape && t.ap.strides.head? != some 1 &&
     (t.requiresIterator || (isColVec t.ap.shape && axis == 1 && total > 1)))
 
-/-- F69: `denseConcat` removes the mask of every masked operand (`mt.SetMask(nil)`) and never puts
-    it back. -/
-def Excl_concatMasked (ops : List Dense) : Bool := ops.any (fun t => t.mask.isSome && t.isMasked)
-
 def excl (ps : PState) (toks : List String) : List String × Bool :=
   let tensors (opToks : List String) : List Dense := opToks.filterMap (fun t => (ps.obj t).map (·.2))
-  let concatTags (via : String) (axis : Int) (opToks : List String) : List String :=
+  let concatTags (axis : Int) (opToks : List String) : List String :=
     let ops := tensors opToks
-    (if Excl_singleOperandFn "concat" via ops.length axis ((ops.head?.map (·.dims)).getD 0) then ["F62"] else []) ++
     (if Excl_concatAllAxes axis then ["F63"] else []) ++
-    (if Excl_concatVecIter ops axis then ["F68"] else []) ++
-    (if Excl_concatMasked ops then ["F69"] else [])
+    (if Excl_concatVecIter ops axis then ["F68"] else [])
   match toks with
-  | "concat" :: via :: axisTok :: opToks =>
+  | "concat" :: _ :: axisTok :: opToks =>
     match axisTok.toInt? with
-    | some axis => (concatTags via axis opToks, false)
+    | some axis => (concatTags axis opToks, false)
     | none => ([], false)
   | "hstack" :: opToks =>
     let ops := tensors opToks
-    (concatTags "meth" (if (ops.head?.map (·.dims)) == some 1 then 0 else 1) opToks, false)
-  | "vstack" :: opToks => (concatTags "meth" 0 opToks, false)
-  | "stack" :: via :: axisTok :: opToks =>
-    match axisTok.toInt? with
-    | some axis =>
-      let ops := tensors opToks
-      ((if Excl_singleOperandFn "stack" via ops.length axis ((ops.head?.map (·.dims)).getD 0) then ["F62"] else []) ++
-       (if Excl_stackShapes (ops.map (·.shape)) then ["F60"] else []) ++
-       (if Excl_stackNegAxis axis then ["F61"] else []), false)
-    | none => ([], false)
+    (concatTags (if (ops.head?.map (·.dims)) == some 1 then 0 else 1) opToks, false)
+  | "vstack" :: opToks => (concatTags 0 opToks, false)
   | ["repeat", _, a, axisTok, repsTok] =>
     match ps.obj a, parseAxis axisTok, parseIntList repsTok with
     | some (_, t), some axis, some reps =>
-      ((if Excl_repeatLayout t then ["F64"] else []) ++
-       (if Excl_repeatVectorResult t.ap.shape axis reps then ["F65"] else []) ++
-       (if Excl_repeatNegAxis axis then ["F66"] else []), false)
+      let _ := (axis, reps)
+      ((if Excl_repeatLayout t then ["F64"] else []), false)
     | _, _, _ => ([], false)
   | ["repeatreuse", a, axisTok, repsTok, r] =>
     match ps.obj a, parseAxis axisTok, parseIntList repsTok, ps.obj r with
     | some (_, t), some axis, some reps, some (_, reuse) =>
+      let _ := (axis, reps)
       ((if Excl_repeatLayout t then ["F64"] else []) ++
-       (if Excl_repeatVectorResult t.ap.shape axis reps then ["F65"] else []) ++
-       (if Excl_repeatNegAxis axis then ["F66"] else []) ++
        (if Excl_reuseLayout reuse then ["F67"] else []), true)
     | _, _, _, _ => ([], false)
-  | ["calcRepeat", _, axisTok, _] =>
-    match parseAxis axisTok with
-    | some axis => ((if Excl_repeatNegAxis axis then ["F66"] else []), false)
-    | none => ([], false)
   | "calcConcat" :: axisTok :: _ =>
     match axisTok.toInt? with
     | some axis => ((if Excl_concatAllAxes axis then ["F63"] else []), false)
